@@ -340,8 +340,8 @@ class Daemon(object):
                 current_context.correlation_id = uuid.UUID(bytes=msg.corr_id)
             else:
                 current_context.correlation_id = uuid.uuid4()
+            serializer = serializers.serializers_by_id[msg.serializer_id]
             serializer_id = msg.serializer_id
-            serializer = serializers.serializers_by_id[serializer_id]
             data = serializer.loads(msg.data)
             handshake_response = self.validateHandshake(conn, data["handshake"])
             handshake_response = {
